@@ -1118,3 +1118,67 @@ _base_scn6 = scenarios
 
 def scenarios():
     return _base_scn6() + [pkesk_decrypt_rsa()]
+
+
+def ske_decrypt(cname):
+    """SKEData.decrypt (tag 9, RFC 4880 5.7 / 13.9: OpenPGP CFB with resynchronisation): the first block-size + 2 octets are decrypted
+    under a zero IV; unless the last two of them repeat the two before, PGPDecryptionError; the rest is decrypted with the ciphertext
+    octets 2 .. block-size + 1 as IV, and that is what is returned. (No integrity protection: finding D28 is about where this packet is
+    accepted; here: what it computes.)"""
+    algid, bsbits, _ = CIPHERS[cname]
+    bs = bsbits // 8
+    label = 'C04/SKEData.decrypt[%s]' % cname
+    SKE = 'pgpy.packet.packets.SKEData'
+
+    def gen(repo):
+        r = scn.Run(repo, SKE, 'decrypt', label)
+        ex, st = r.ex, r.st
+        scn.cipher_facts(r)
+        CT, KEYB = z3.Const('CIPHERTEXT', B), z3.Const('SESSION_KEY', B)
+        st.pc.append(z3.Length(CT) >= bs + 2)
+        me = E.VObj(SKE, 'pkt')
+        r.set('pkt', 'ct', ex.new_buf(st, CT))
+        alg = E.VInt(algid, enum='pgpy.constants.SymmetricKeyAlgorithm')
+        DEC = z3.Function('CFB_DECRYPT', B, B, B, B)          # (ciphertext, key, iv) -> plaintext, same length as the ciphertext
+        calls = []
+
+        def dec(ex, st, o, a, kws=None):
+            kws = kws or {}
+            iv = a[3] if len(a) > 3 else kws.get('iv')
+            ivz = ex.seq(iv, st) if iv is not None and not isinstance(iv, E.VNone) else z3.Concat(*[z3.Unit(z3.IntVal(0))] * bs)
+            c = ex.seq(a[0], st)
+            out = DEC(c, ex.seq(a[1], st), ivz)
+            st.facts.append(z3.Length(out) == z3.Length(c))
+            st.ghost['dec'] = st.ghost.get('dec', ()) + ((c, ex.seq(a[1], st), ivz, ex.as_int(a[2])),)
+            return [(st, ex.new_buf(st, out))]
+        dec.wants_kws = True
+        ex.fhooks['pgpy.symenc._decrypt'] = dec
+        ZERO = z3.Concat(*[z3.Unit(z3.IntVal(0))] * bs)
+        P1 = DEC(z3.Extract(CT, 0, bs + 2), KEYB, ZERO)
+        quick = z3.Extract(P1, bs - 2, 2) == z3.Extract(P1, bs, 2)
+        nret = 0
+        for pi, (s, v) in enumerate(r.call(me, [E.VBytes(KEYB), alg])):
+            d = s.ghost.get('dec', ())
+            if isinstance(v, E.Raise):
+                r.oblige(s, 'rejects-only-with-PGPDecryptionError-when-the-prefix-does-not-repeat/p%d' % pi,
+                         z3.And(z3.BoolVal(v.exc.split(':')[0] == 'PGPDecryptionError' and len(d) >= 1), z3.Not(quick)), v.where)
+                continue
+            nret += 1
+            r.oblige(s, 'accepted=>prefix-repeats-its-last-two-octets/p%d' % pi, quick)
+            ok = len(d) == 2
+            r.oblige(s, 'first-the-prefix-under-a-zero-iv,then-the-rest-resynchronised-on-ciphertext-octets-2..bs+1/p%d' % pi,
+                     z3.And(z3.BoolVal(ok), z3.And(d[0][0] == z3.Extract(CT, 0, bs + 2), d[0][1] == KEYB, d[0][2] == ZERO, d[0][3] == algid,
+                                                  d[1][0] == z3.Extract(CT, bs + 2, z3.Length(CT) - bs - 2), d[1][1] == KEYB,
+                                                  d[1][2] == z3.Extract(CT, 2, bs), d[1][3] == algid) if ok else z3.BoolVal(False)))
+            if ok:
+                r.oblige(s, 'returns-the-second-decryption/p%d' % pi, ex.seq(v, s) == DEC(d[1][0], d[1][1], d[1][2]))
+        r.oblige(st, 'cover-an-accepting-path', z3.BoolVal(nret > 0))
+        return r.result()
+    return Scenario(label, SKE + '.decrypt', gen, props=('C04', 'C03'))
+
+
+_base_scn_ske = scenarios
+
+
+def scenarios():
+    return _base_scn_ske() + [ske_decrypt('AES256'), ske_decrypt('CAST5')]
